@@ -136,6 +136,24 @@ func genLitCases(cx *CheckCtx) []*Case {
 		add(uint64(b))
 		add(uintptr(b))
 	}
+	// floats AT the limits of the integer types and the powers of two around them (a conversion
+	// between float and integer text is exact only inside the range), both signs
+	for k := 0; k <= 70; k++ {
+		p2 := math.Ldexp(1, k)
+		for _, v := range []float64{p2, p2 - 1, p2 + 1, math.Nextafter(p2, 0), math.Nextafter(p2, math.Inf(1))} {
+			add(v)
+			add(-v)
+			if k%8 == 7 || k%8 == 0 {
+				add(float32(v))
+				add(complex(v, -v))
+			}
+		}
+	}
+	for _, b := range bounds {
+		add(float64(b))
+		add(-float64(b))
+		add(float32(b))
+	}
 	add(uint64(math.MaxUint64))
 	add(uint(math.MaxUint64))
 	add(uintptr(math.MaxUint64))
